@@ -664,6 +664,11 @@ def correspondence(ctx):
 BOUNDARY = [0, 1, 2, 3, 4, 5, 7, 8, 9, 15, 16, 17, 24, 25, 31, 32, 33, 63, 64, 127, 128, 129, 239, 240, 254, 255]
 
 
+THIRD_THOROUGH = sorted(set(BOUNDARY) | set(range(0, 129, 8)) | {6, 10, 12, 13, 14, 20, 34, 37, 48, 96, 200, 241})
+FULL3 = ('Update.parse_prefix_list', 'LS-TLV-1034(SRCapabilities).unpack', 'LS-TLV-1036(SRLB).unpack',
+         'NLRI.parse_mpls_label_stack')
+
+
 def build_batches(ctx):
     rng = ctx.rng
     names = sorted(decoders())
@@ -686,15 +691,16 @@ def build_batches(ctx):
         if not loopy(n):
             continue
         if ctx.thorough:
+            full = n in FULL3
             for lo in range(0, 256, 32):
-                batches.append([(n, ('exh3', lo, lo + 32, None))])
+                batches.append([(n, ('exh3', lo, lo + 32, None if full else THIRD_THOROUGH))])
             n3 += 1
         else:
             batches.append([(n, ('exh3', 0, 256, BOUNDARY[::2], BOUNDARY))])
             n3 += 1
     info['exhaustive_len2_decoders'] = len(names)
     info['len3_decoders'] = n3
-    info['len3_mode'] = 'all 2^24' if ctx.thorough else 'all first octets x %d boundary second x %d boundary third octets' % (len(BOUNDARY), len(BOUNDARY[::2]))
+    info['len3_mode'] = ('all first two octets x %d third octets; all 2^24 for %s' % (len(THIRD_THOROUGH), ', '.join(FULL3))) if ctx.thorough else 'all first octets x %d boundary second x %d boundary third octets' % (len(BOUNDARY), len(BOUNDARY[::2]))
     n_sweep = len(batches)
     # (2) corpus on every decoder
     hexes = [c.hex() for c in corpus_all]
@@ -757,6 +763,25 @@ def build_batches(ctx):
 KNOWN_HANG_TLVS = ()     # none: the SRCapabilities/SRLB hang is repaired by build/proposed/c11-srcap-srlb.diff
 
 
+def inventory_diff():
+    """readable difference between gen/Inventory.v and model/YLoops.v (for the replay file when the
+    inventory lemma no longer checks)"""
+    import re
+    try:
+        gen = open(os.path.join(common.COQ, 'gen', 'Inventory.v')).read()
+        mod = open(os.path.join(common.COQ, 'model', 'YLoops.v')).read()
+    except IOError as e:
+        return ['cannot read inventory: %s' % e]
+    sec = gen[gen.index('Definition gen_loops'):gen.index('Definition gen_rec_sites')]
+    g = {(f, q, int(fp)): c for f, q, c, fp in
+         re.findall(r'\(\* (\S+) (\S+): while (.*?) \*\)\n\s*\(\[[0-9;]*\], \[[0-9;]*\], (\d+), \d+\)', sec)}
+    m = {(f, q, int(fp)) for f, q, fp in re.findall(r'\("([^"]+)", "([^"]+)", (\d+), \d+, \[', mod)}
+    out = ['in the source but not modelled: %s %s `while %s` (fingerprint %d)' % (k[0], k[1], g[k], k[2])
+           for k in sorted(set(g) - m)]
+    out += ['modelled but not in the source (edited or removed): %s %s (fingerprint %d)' % k for k in sorted(m - set(g))]
+    return out
+
+
 def run(ctx):
     t0 = time.time()
     budget = 1.0 if ctx.thorough else 0.5
@@ -796,6 +821,9 @@ def run(ctx):
             best[key] = v
     viol = sorted(best.values(), key=lambda v: (0 if v.get('decoder') else 1, len(str(v.get('input')))))
     ncases, mism, samples = correspondence(ctx)
+    if not ctx.coq_ok:
+        for line in inventory_diff():
+            mism.append({'what': 'loop inventory: ' + line})
     # work bound actually observed: the slowest single call
     extra = dict(info)
     extra.update({'oracle_calls': calls, 'calls_returning_a_value': values, 'exception_classes': exc,
